@@ -33,6 +33,7 @@ class Spec:
     fail_undeclared: bool = False       # the fail flag is read without declaring it as a dependency
     post: Tuple[str, ...] = ()          # dependencies requested AFTER the output was written (and redo-stamp has run)
     arg1: str = ""                      # (set by the reference model) $1 of the rule that matched
+    tolerant: bool = False              # the script goes on when the redo-ifchange of its static dependencies fails ("!" stands for their content)
     mkdir: bool = False                 # the script creates its target's directory (a rule of a parent directory building into a directory that does not exist yet)
     bursts: bool = False                # (csum, stdout) the data reaches redo-stamp through a pipe in two bursts, the varying part in the second
     wreck: str = ""                     # the script replaces this directory (its target's parent) by a regular file before it writes its output
@@ -174,7 +175,14 @@ def script_text(spec: Spec, variant: int, dofile: str, gates: bool = False) -> s
     if spec.noise == 8 and deps:
         # "checking for x... " -- a partial line, and the nested build starts right behind it
         L.append('printf "L $1 7 partial line before the dependencies: " >&2')
-    if deps:
+    if deps and spec.tolerant:
+        # a configure-style probe: `if redo-ifchange x; then use it; else do without`
+        q = " ".join('"%s"' % n for n in deps)
+        core = 'if redo-ifchange %s; then %s; else echo "R $rv_n $?" >> "$RV_TRACE"; c="$c!"; fi' % (
+            q, "; ".join('c="$c$(cat "%s")"' % d for d in deps))
+        L.append(('vgate n "work-end $rv_n"; ' + core + '; vgate n "work-begin $rv_n"; vgate p "r:$rv_n"') if gates else core)
+        kp()
+    elif deps:
         if spec.split:
             for d in deps:
                 L.append(ifchange([d]))
@@ -411,6 +419,17 @@ def curated() -> Dict[str, World]:
         {"default.txt.do": [S(deps=["s"], mkdir=True, out="file")], "out/default.txt.do": [S(deps=["../s"], tag="inner")],
          "out/x.txt.do": [S(deps=["../s"], tag="own", out="file")], "top.do": [S(deps=["out/x.txt"])]},
         ["top", "out/x.txt"], ["top", "out/x.txt"])
+    W["tolerant"] = World(   # a script that goes on without a dependency whose build fails (and must be rebuilt once it can be had)
+        "tolerant", {"s": V3, "flag": ["0", "1"]},
+        {"top.do": [S(deps=["t"])], "t.do": [S(deps=["c"], tolerant=True, out="file")], "c.do": [S(deps=["s"], fail="flag")]},
+        ["top", "t", "c"], ["top", "t"],
+        prefixes=[[["ifchange", ["top"]], ["edit", "flag", "1"], ["redo", ["t"]]]])
+    W["tolerant-csum"] = World(   # the same with a checksummed dependency, whose checksum after the repair is what it was before
+        "tolerant-csum", {"s": V3, "flag": ["0", "1"]},
+        {"top.do": [S(deps=["t"])], "t.do": [S(deps=["c"], tolerant=True, out="file")],
+         "c.do": [S(kind="csum", deps=["s"], fail="flag", proj=True, out="file")]},
+        ["top", "t", "c"], ["top", "t"],
+        prefixes=[[["ifchange", ["top"]], ["edit", "flag", "1"], ["redo", ["t"]]]])
     W["csum-burst"] = World(   # the checksummed node's data reaches redo-stamp through a pipe, in two bursts
         "csum-burst", {"s": V3},
         {"top.do": [S(deps=["c"])], "c.do": [S(kind="csum", deps=["s"], bursts=True)]},
